@@ -16,13 +16,18 @@ func main() {
 			"before-return / result and the trace is diffed with the model (calls below 48 KiB payload). A raw reference peer (WHATWG reader) reads the same streams: ids pairwise distinct, " +
 			"frames = notifications then answer, both diffed with the model (writer-object fact). The real client's reader is also run against a scripted peer (frames after the answer, foreign ids, " +
 			"undecodable frames). Handler registration HISTORIES on one client (register, re-register a registered method with another tagged handler instance, unregister, register again) " +
-			"interleaved with batches of calls: which instance received each notification vs last-registration-wins and vs the model's tableAfter. NotificationParams marshal/unmarshal/NewNotification vs the model on generated values. Non-trivial = at least one notification handled / on the stream.",
+			"interleaved with batches of calls: which instance received each notification vs last-registration-wins and vs the model's tableAfter. " +
+			"SLOW HANDLERS: the handler really pauses (time.Sleep) 1 s / 3 s / 12 s in all (thorough also 35 s / 65 s) - between notifications, before the answer, before the first notification, or in two halves - " +
+			"on every server configuration, real client and raw peer, every case on its own server and session, all concurrently with the rest; same per-call oracle, same model lines (the model has no time: the pause is an ignored field). NotificationParams marshal/unmarshal/NewNotification vs the model on generated values. Non-trivial = at least one notification handled / on the stream.",
 		Run: run})
 }
 
 func run(c *hk.Ctx) {
 	r := c.Rng
 	th := c.Thorough()
+	all := []string{mProgress, mMessage, "verif/custom/a", "verif/custom/b", "x", "notifications/tools/list_changed"}
+	// slow handlers (pauses of 1 s .. 12 s, thorough .. 65 s): started first, run next to everything below, judged at the end
+	slow := startSlow(c, all)
 	nParams, nScript, perEnv, perRaw := 1500, 400, 60, 120
 	if th {
 		nParams, nScript, perEnv, perRaw = 8000, 3000, 300, 600
@@ -39,7 +44,6 @@ func run(c *hk.Ctx) {
 		}
 		return ps
 	}
-	all := []string{mProgress, mMessage, "verif/custom/a", "verif/custom/b", "x", "notifications/tools/list_changed"}
 	profiles := []struct {
 		name       string
 		methods    []string
@@ -85,5 +89,6 @@ func run(c *hk.Ctx) {
 		}
 		runRaw(c, cfg, mkPlans(n, 60))
 	}
+	slow.join(c)
 	c.SetExtra("model_limit_bytes", modelLimit)
 }
